@@ -94,6 +94,8 @@ func main() {
 	switch os.Args[1] {
 	case "check":
 		os.Exit(cmdCheck(os.Args[2:]))
+	case "bindings":
+		os.Exit(cmdBindings(os.Args[2:]))
 	case "dump":
 		os.Exit(cmdDump(os.Args[2:]))
 	default:
